@@ -24,14 +24,14 @@ ASSUMPTIONS = ["scores at 1e-4; combinations within 2e-4 of the gap bound are no
 EXPLANATION = "differential vs exhaustive allele-multiset enumerator (R-MAJ) + noise-free sweep over shipped catalogues"
 
 
-def judge(gene, prof, raw, cn, sols, planted=None, noise_free=False, labels=None):
+def judge(gene, prof, raw, cn, sols, planted=None, noise_free=False, labels=None, indels=None):
     """All clauses for one estimate_major result."""
     from aldy.gene import Mutation
 
     viol = []
     labels = labels if labels is not None else []
     try:
-        cands, ref, t2 = refmodels.rmaj(gene, prof, raw, cn)
+        cands, ref, t2 = refmodels.rmaj(gene, prof, raw, cn, indels=indels)
     except OverflowError:
         labels.append("enumeration-capped")
         cands, ref, t2 = None, None, None
@@ -126,12 +126,16 @@ def run_opt(case):
             if cn.position_cn(m[0]) > 0:
                 extra[m] = 1
     noise = (0.6, 1.4) if case["noisy"] else (1.0, 1.0)
+    if case["depth"] >= 1000 and case["noisy"]:
+        noise = (0.9993, 1.0007)  # deep coverage, a read or two off: combinations whose errors differ by 1e-3 .. 1e-2
     raw = gen_evid.planted_table(gene, copies, case["depth"], fsites, rng, noise, extra, drop=case["drop"] / 100.0)
     # weak evidence: a few reads of a functional variant (between the two filter thresholds or below them)
     for j, n in case.get("weak", []):
         if fsites:
             m = fsites[j % len(fsites)]
             if cn.position_cn(m[0]) > 0 and m[1] not in raw.get(m[0], {}):
+                if case["depth"] >= 1000:
+                    n = case["depth"] // 2 + n - 6  # half a copy, a few reads more or less: two calls almost equally good
                 raw.setdefault(m[0], {})[m[1]] = [(60, 60)] * n
     # stray evidence: reads showing a base change that is NOT catalogued, at the position of a catalogued core variant
     stray = 0
@@ -144,13 +148,34 @@ def run_opt(case):
             if cn.position_cn(m[0]) > 0 and alts and ref in "ACGT":
                 raw.setdefault(m[0], {})[f"{ref}>{alts[(j + n) % len(alts)]}"] = [(60, 60)] * n
                 stray += 1
-    cov = gen_evid.coverage_of(gene, prof, raw)
+    # re-alignment table, as the BAM route builds it for catalogued insertions / deletions: (reads not supporting, reads supporting);
+    # the number of informative reads differs from the pile-up depth (reads that reach the site without spanning the indel)
+    indels = None
+    if case.get("indel_table"):
+        indels = {}
+        fr = [0.5, 0.8, 1.0, 1.3][case["indel_table"] % 4]
+        for (p, o) in gene.mutations:
+            if o[:3] in ("ins", "del") and "ins" not in o[3:]:
+                on = len(raw.get(p, {}).get(o, []))
+                tot = sum(len(v) for oo, v in raw.get(p, {}).items() if not oo.startswith("ins"))
+                if on:
+                    indels[(p, o)] = (max(0, int(round((tot - (on if o.startswith("del") else 0)) * fr))), on)
+        if not indels:
+            indels = None
+    if indels is None:
+        cov = gen_evid.coverage_of(gene, prof, raw)
+    else:
+        from aldy.coverage import Coverage
+
+        cov = Coverage(gene, prof, None, {p: {o: list(v) for o, v in ops.items()} for p, ops in raw.items()}, dict(indels), {})
     sols = estimate_major(gene, cov, cn, "cbc")
     labels = [f"gene:{case['gene']}", f"gap:{case['gap']}", f"copies:{len(struct)}", "noisy" if case["noisy"] else "exact",
+              "indel-realignment-table" if indels else "no-indel-table", "deep" if case["depth"] >= 1000 else "shallow",
               "weak-evidence" if case.get("weak") else "no-weak", "stray-evidence" if stray else "no-stray",
               "novel-evidence" if extra else "no-novel", "fusion" if any(c != "1" for c in struct) else "default-only"]
     nf = not case["noisy"] and not extra and not case["drop"] and not case.get("weak") and not stray
-    viol = judge(gene, prof, raw, cn, sols, planted=tuple(sorted(sel)), noise_free=nf and not overlapping(copies), labels=labels)
+    viol = judge(gene, prof, raw, cn, sols, planted=tuple(sorted(sel)), noise_free=nf and not overlapping(copies) and not indels, labels=labels,
+                 indels=indels)
     if case.get("again") is not None:
         # history: the SAME evidence object is asked again under another structure (what the pipeline does for every reported
         # structure); the answer must be the one a first call would give (reference = enumerator on the raw table)
@@ -159,7 +184,7 @@ def run_opt(case):
         if len(struct2) <= 4 and all(by[c] for c in struct2):
             cn2 = CNSolution(gene, 0, struct2)
             l2 = []
-            v2 = judge(gene, prof, raw, cn2, estimate_major(gene, cov, cn2, "cbc"), labels=l2)
+            v2 = judge(gene, prof, raw, cn2, estimate_major(gene, cov, cn2, "cbc"), labels=l2, indels=indels)
             viol = viol + [V("second-structure:" + v["bucket"], **v["detail"]) for v in v2]
             labels.append("second-structure")
     if any(s.added for s in sols):
@@ -281,11 +306,11 @@ def enum_cases(tier):
 def strategy(tier):
     def opt_for(g):
         d = {"kind": st.just("opt"), "gene": st.just(g), "build": st.sampled_from(["hg19", "hg38"]),
-             "struct": st.lists(st.integers(0, 9), min_size=1, max_size=4), "depth": st.sampled_from([10, 20, 30]),
+             "struct": st.lists(st.integers(0, 9), min_size=1, max_size=4), "depth": st.sampled_from([10, 20, 30, 10, 20, 30, 2000]),
              "noisy": st.booleans(), "extra": st.lists(st.integers(0, 30), max_size=2), "drop": st.sampled_from([0, 0, 10, 30]),
              "gap": st.sampled_from([0, 0.1, 0.5]), "seed": st.integers(0, 10 ** 6),
              "weak": st.lists(st.tuples(st.integers(0, 30), st.integers(1, 12)).map(list), max_size=2),
-             "again": st.sampled_from([None, None, 0, 1, 2, 3]),
+             "again": st.sampled_from([None, None, 0, 1, 2, 3]), "indel_table": st.sampled_from([0, 0, 1, 2, 3, 4]),
              "stray": st.sampled_from([[], [], None]).flatmap(
                  lambda v: st.just([]) if v is not None else st.lists(st.tuples(st.integers(0, 30), st.integers(1, 25)).map(list), min_size=1, max_size=2))}
         if g == "gen":
